@@ -184,8 +184,9 @@ def judge_vertex_shape(chk, it, rcirc):
         ok, why = miniball_certificate(V, c, r)
         if not ok:
             chk.violation(name, dict(desc, center=c.tolist(), radius=r, why=why))
-        if abs(getattr(sh, name + "_radius") - r) > 1e-12 * r:
-            chk.violation(name + "_radius", dict(desc))
+        # (miniball is randomised: a second evaluation may differ in the last digits)
+        if abs(getattr(sh, name + "_radius") - r) > 1e-8 * r:
+            chk.violation(name + "_radius", dict(desc, getter=float(getattr(sh, name + "_radius")), ball=r))
         if dim == 2:
             nrm = np.array(sh.normal)
             if abs(nrm @ (c - V[0])) > 1e-7 * size:
